@@ -4,7 +4,7 @@ import DarkluaModel.Shared.VisitorSound.StateRel
 # State operations and `SRel`
 -/
 namespace DarkluaModel.Sem.Heap
-variable {N : NumOps} {Q : QRel} {cx : Cx} {β : CellRel}
+variable {N : NumOps} {Q : QRel} {cx : Cx} {β : CellRel N}
 
 theorem length_listSet {α : Type} (l : List α) (i : Nat) (a : α) : (listSet l i a).length = l.length := by
   induction l generalizing i with
@@ -39,14 +39,23 @@ theorem lookup_setAssoc_ne {α : Type} {m n : String} (h : m ≠ n) (v : α) :
       simp [lookupAssoc, this]
     · simp only [lookupAssoc, lookup_setAssoc_ne h v rest]
 
+theorem listSet_append_len' {α : Type} (l : List α) (a : α) : listSet (l ++ [a]) l.length a = l ++ [a] := by
+  induction l with
+  | nil => rfl
+  | cons x xs ih => simp only [List.cons_append, List.length_cons, listSet, ih]
+
 theorem forall2_imp' {α β : Type} {R S : α → β → Prop} (h : ∀ a b, R a b → S a b) {l1 l2}
     (hl : Forall2 R l1 l2) : Forall2 S l1 l2 := Forall2.imp h hl
 
 /-- the injection extended by the pair of cells allocated next on both sides -/
-def extBoth (β : CellRel) (σ σ' : State N) : CellRel :=
-  fun a b => β a b ∨ (a = σ.cells.length ∧ b = σ'.cells.length)
+def extBoth (β : CellRel N) (σ σ' : State N) : CellRel N :=
+  ⟨fun a b => β a b ∨ (a = σ.cells.length ∧ b = σ'.cells.length), σ.cells.length + 1, σ'.cells.length + 1, β.pins⟩
 
-theorem le_extBoth {σ σ' : State N} : β.le (extBoth β σ σ') := fun _ _ hab => .inl hab
+theorem le_extBoth {σ σ' : State N} (h : SRel Q cx β σ σ') : β.le (extBoth β σ σ') :=
+  ⟨fun _ _ hab => .inl hab, Nat.le_succ_of_le h.front.1, Nat.le_succ_of_le h.front.2, fun a b hab => by
+    rcases hab with hab | ⟨rfl, rfl⟩
+    · exact .inl hab
+    · exact .inr h.front, fun _ hp => hp⟩
 theorem extBoth_new {σ σ' : State N} : extBoth β σ σ' σ.cells.length σ'.cells.length := .inr ⟨rfl, rfl⟩
 
 section
@@ -117,7 +126,13 @@ theorem SRel.setGlobal (n : String) (hn : n ∉ cx.W) (v : Val N) : SRel Q cx β
     ginv := fun p hp => by
       have hne : p.1 ≠ n := fun e => hn (e ▸ cx.sub N p hp)
       simp only [State.getGlobal, State.setGlobal, lookup_setAssoc_ne hne]
-      exact h.ginv p hp }
+      exact h.ginv p hp
+    finv := fun p hp => by
+      have hne : p.1 ≠ n := fun e => hn (e ▸ cx.subF p hp)
+      obtain ⟨id, clo, h1, h2⟩ := h.finv p hp
+      refine ⟨id, clo, ?_, h2⟩
+      simp only [State.getGlobal, State.setGlobal, lookup_setAssoc_ne hne]
+      exact h1 }
 theorem SRel.rawSet (t : Nat) (k v : Val N) : SRel Q cx β (σ.rawSet t k v) (σ'.rawSet t k v) := by
   simp only [State.rawSet, h.getTable]; exact h.setTable _ _
 theorem SRel.pushTrace (e : Event) :
@@ -132,7 +147,17 @@ theorem SRel.setMany (t : Nat) (i : Nat) (vs : List (Val N)) :
 theorem SRel.allocClosure {c c' : Closure N} (hc : CRel Q cx β c c') :
     (σ'.allocClosure c').1 = (σ.allocClosure c).1 ∧ SRel Q cx β (σ.allocClosure c).2 (σ'.allocClosure c').2 :=
   ⟨by simp only [State.allocClosure, h.closure_length],
-   { h with closures := forall2_snoc h.closures hc }⟩
+   { h with
+     closures := forall2_snoc h.closures hc
+     finv := fun p hp => by
+       obtain ⟨id, clo, h1, h2, h3⟩ := h.finv p hp
+       refine ⟨id, clo, h1, ?_, h3⟩
+       simp only [State.allocClosure]
+       rw [List.getElem?_append_left]
+       · exact h2
+       · cases hlt : σ.closures[id]? with
+         | none => rw [hlt] at h2; cases h2
+         | some _ => exact (List.getElem?_eq_some_iff.mp hlt).1 }⟩
 
 /-! ### cells -/
 
@@ -141,6 +166,7 @@ theorem SRel.setCell {a b : Nat} (hab : β a b) (v : Val N) : SRel Q cx β (σ.s
   tables := h.tables
   trace := h.trace
   ginv := h.ginv
+  finv := h.finv
   inj := h.inj
   bound := fun hxy => by
     simp only [State.setCell, length_listSet]; exact h.bound hxy
@@ -157,6 +183,14 @@ theorem SRel.setCell {a b : Nat} (hab : β a b) (v : Val N) : SRel Q cx β (σ.s
       simp only [hax, hby, false_and, if_false]
       exact h.cell hxy
   closures := h.closures
+  front := by simp only [State.setCell, length_listSet]; exact h.front
+  pin := fun p hp => by
+    have hh := h.pin p hp
+    refine ⟨?_, hh.2⟩
+    simp only [State.setCell, getElem?_listSet]
+    have hne : ¬ b = p.1 := fun e => hh.2 a (e ▸ hab)
+    simp only [hne, false_and, if_false]
+    exact hh.1
 
 theorem SRel.assignVar {D : List DName} {env env' : Env N} (he : LocOK cx β D env.locals env'.locals)
     {n : String} (hn : DName.ref n ∉ D) (hw : DName.wat n ∉ D) (v : Val N) :
@@ -173,6 +207,7 @@ theorem SRel.allocBoth (v : Val N) : SRel Q cx (extBoth β σ σ') (σ.allocCell
   tables := h.tables
   trace := h.trace
   ginv := h.ginv
+  finv := h.finv
   inj := fun {a b a' b'} h1 h2 => by
     rcases h1 with h1 | ⟨rfl, rfl⟩ <;> rcases h2 with h2 | ⟨rfl, rfl⟩
     · exact h.inj h1 h2
@@ -191,13 +226,26 @@ theorem SRel.allocBoth (v : Val N) : SRel Q cx (extBoth β σ σ') (σ.allocCell
       rw [List.getElem?_append_left hb.1, List.getElem?_append_left hb.2]
       exact h.cell h1
     · simp
-  closures := Forall2.imp (fun _ _ hc => hc.mono le_extBoth) h.closures
+  closures := Forall2.imp (fun _ _ hc => hc.mono (le_extBoth h)) h.closures
+  front := by simp [extBoth, State.allocCell]
+  pin := fun p hp => by
+    have hh := h.pin p hp
+    have hlt : p.1 < σ'.cells.length := by
+      cases hx : σ'.cells[p.1]? with
+      | none => rw [hx] at hh; cases hh.1
+      | some _ => exact (List.getElem?_eq_some_iff.mp hx).1
+    refine ⟨?_, fun a hab => ?_⟩
+    · simp only [State.allocCell]; rw [List.getElem?_append_left hlt]; exact hh.1
+    · rcases hab with hab | ⟨_, hb⟩
+      · exact hh.2 a hab
+      · omega
 
 theorem SRel.allocLeft (v : Val N) : SRel Q cx β (σ.allocCell v).2 σ' where
   globals := h.globals
   tables := h.tables
   trace := h.trace
   ginv := h.ginv
+  finv := h.finv
   inj := h.inj
   bound := fun h1 => by
     simp only [State.allocCell, List.length_append, List.length_singleton]
@@ -207,12 +255,17 @@ theorem SRel.allocLeft (v : Val N) : SRel Q cx β (σ.allocCell v).2 σ' where
     rw [List.getElem?_append_left (h.bound h1).1]
     exact h.cell h1
   closures := h.closures
+  front := by
+    simp only [State.allocCell, List.length_append, List.length_singleton]
+    have := h.front; omega
+  pin := h.pin
 
 theorem SRel.allocRight (v : Val N) : SRel Q cx β σ (σ'.allocCell v).2 where
   globals := h.globals
   tables := h.tables
   trace := h.trace
   ginv := h.ginv
+  finv := h.finv
   inj := h.inj
   bound := fun h1 => by
     simp only [State.allocCell, List.length_append, List.length_singleton]
@@ -222,6 +275,17 @@ theorem SRel.allocRight (v : Val N) : SRel Q cx β σ (σ'.allocCell v).2 where
     rw [List.getElem?_append_left (h.bound h1).2]
     exact h.cell h1
   closures := h.closures
+  front := by
+    simp only [State.allocCell, List.length_append, List.length_singleton]
+    have := h.front; omega
+  pin := fun p hp => by
+    have hh := h.pin p hp
+    have hlt : p.1 < σ'.cells.length := by
+      cases hx : σ'.cells[p.1]? with
+      | none => rw [hx] at hh; cases hh.1
+      | some _ => exact (List.getElem?_eq_some_iff.mp hx).1
+    refine ⟨?_, hh.2⟩
+    simp only [State.allocCell]; rw [List.getElem?_append_left hlt]; exact hh.1
 end
 
 /-- `bindLocals` on both sides: the fresh cells are paired up -/
@@ -236,7 +300,129 @@ theorem SRel.bindLocals {σ σ' : State N} (h : SRel Q cx β σ σ') {D : List D
     simp only [Sem.bindLocals]
     have h1 := h.allocBoth (first vs)
     obtain ⟨β', hle, hs, henv⟩ := ih h1 (fun m hm => hns m (List.mem_cons_of_mem _ hm)) (List.drop 1 vs)
-      ((he.mono le_extBoth).cons n (hns n List.mem_cons_self) extBoth_new)
-    exact ⟨β', CellRel.le_trans le_extBoth hle, hs, henv⟩
+      ((he.mono (le_extBoth h)).cons n (hns n List.mem_cons_self) extBoth_new)
+    exact ⟨β', CellRel.le_trans (le_extBoth h) hle, hs, henv⟩
+
+/-! ### the frontier: one-sided cells -/
+
+/-- move the frontier up to the current allocation point: every cell that exists now and is unrelated
+stays unrelated in all later extensions -/
+def CellRel.bump (β : CellRel N) (σ σ' : State N) : CellRel N := ⟨β.r, σ.cells.length, σ'.cells.length, β.pins⟩
+
+theorem SRel.le_bump {σ σ' : State N} (h : SRel Q cx β σ σ') : β.le (β.bump σ σ') :=
+  ⟨fun _ _ hab => hab, h.front.1, h.front.2, fun _ _ hab => .inl hab, fun _ hp => hp⟩
+
+theorem SRel.bump {σ σ' : State N} (h : SRel Q cx β σ σ') : SRel Q cx (β.bump σ σ') σ σ' :=
+  { globals := h.globals, tables := h.tables, trace := h.trace, ginv := h.ginv, finv := h.finv
+    inj := h.inj, bound := h.bound, cell := h.cell
+    closures := Forall2.imp (fun _ _ hc => hc.mono h.le_bump) h.closures
+    front := ⟨Nat.le_refl _, Nat.le_refl _⟩
+    pin := h.pin }
+
+/-- the injection with the pin of the right cell `c'` set to `v` (other pins kept) -/
+def CellRel.repin (β : CellRel N) (c' : Nat) (v : Val N) : CellRel N :=
+  ⟨β.r, β.L, β.L', (c', v) :: β.pins.filter (fun p => p.1 != c')⟩
+
+/-- a write to a cell that exists only on the right (unrelated): the relation holds with the pin of
+that cell updated; the other pins are kept -/
+theorem SRel.setCellRight {σ σ' : State N} (h : SRel Q cx β σ σ') {c' : Nat} (hlt : c' < σ'.cells.length)
+    (hu : ∀ a, ¬ β a c') (v : Val N) : SRel Q cx (β.repin c' v) σ (σ'.setCell c' v) :=
+  { globals := h.globals, tables := h.tables, trace := h.trace, ginv := h.ginv, finv := h.finv
+    inj := h.inj
+    bound := fun hxy => by simp only [State.setCell, length_listSet]; exact h.bound hxy
+    cell := fun {x y} hxy => by
+      simp only [State.setCell, getElem?_listSet]
+      have hne : ¬ c' = y := fun e => hu x (e ▸ hxy)
+      simp only [hne, false_and, if_false]
+      exact h.cell hxy
+    closures := Forall2.imp (fun _ _ hc => ⟨hc.varargs, let ⟨D, hq, he⟩ := hc.body; ⟨D, hq, ⟨he.rel, he.dw, he.nb⟩⟩⟩) h.closures
+    front := by simp only [State.setCell, length_listSet]; exact h.front
+    pin := fun p hp => by
+      simp only [CellRel.repin, List.mem_cons, List.mem_filter, bne_iff_ne, ne_eq] at hp
+      rcases hp with rfl | ⟨hp, hne⟩
+      · refine ⟨?_, hu⟩
+        simp only [State.setCell, getElem?_listSet, hlt, and_self, if_true]
+      · have hh := h.pin p hp
+        refine ⟨?_, hh.2⟩
+        simp only [State.setCell, getElem?_listSet]
+        have : ¬ c' = p.1 := fun e => hne e.symm
+        simp only [this, false_and, if_false]
+        exact hh.1 }
+
+/-- the old injection is below the re-pinned one as far as relation and frontier go; the pins other
+than `c'` are kept (so `CellRel.le` holds when `c'` was not pinned before) -/
+theorem CellRel.le_repin (β : CellRel N) {c' : Nat} (v : Val N) (hnp : ∀ p ∈ β.pins, p.1 ≠ c') :
+    β.le (β.repin c' v) :=
+  ⟨fun _ _ h => h, Nat.le_refl _, Nat.le_refl _, fun _ _ h => .inl h, fun p hp => by
+    simp only [CellRel.repin, List.mem_cons, List.mem_filter, bne_iff_ne, ne_eq]
+    exact .inr ⟨hp, hnp p hp⟩⟩
+
+theorem SRel.setCellLeft {σ σ' : State N} (h : SRel Q cx β σ σ') {c : Nat} (hu : ∀ b, ¬ β c b) (v : Val N) :
+    SRel Q cx β (σ.setCell c v) σ' :=
+  { globals := h.globals, tables := h.tables, trace := h.trace, ginv := h.ginv, finv := h.finv
+    inj := h.inj
+    bound := fun hxy => by simp only [State.setCell, length_listSet]; exact h.bound hxy
+    cell := fun {x y} hxy => by
+      simp only [State.setCell, getElem?_listSet]
+      have hne : ¬ c = x := fun e => hu y (e ▸ hxy)
+      simp only [hne, false_and, if_false]
+      exact h.cell hxy
+    closures := h.closures
+    front := by simp only [State.setCell, length_listSet]; exact h.front
+    pin := h.pin }
+
+/-- the next cell to be allocated on the right is related to nothing (likewise on the left) -/
+theorem SRel.fresh_unrelatedRight {σ σ' : State N} (h : SRel Q cx β σ σ') : ∀ a, ¬ β a σ'.cells.length :=
+  fun _ hab => Nat.lt_irrefl _ (h.bound hab).2
+theorem SRel.fresh_unrelatedLeft {σ σ' : State N} (h : SRel Q cx β σ σ') : ∀ b, ¬ β σ.cells.length b :=
+  fun _ hab => Nat.lt_irrefl _ (h.bound hab).1
+
+/-- **One-sided local on the right** (e.g. the flag variable of `remove_continue`): allocate it holding
+`v`, move the frontier past it and pin it. It is unrelated and stays so in every later extension
+(`CellRel.le.protectedRight`), related code never changes it (`SRel.pin` is part of every later `SRel`
+because extensions keep pins), and its owner may overwrite it (`SRel.assignRight`). -/
+theorem SRel.allocRightPinned {σ σ' : State N} (h : SRel Q cx β σ σ') (v : Val N) :
+    ∃ β1, β.le β1 ∧ SRel Q cx β1 σ (σ'.allocCell v).2 ∧ ((σ'.allocCell v).1, v) ∈ β1.pins ∧
+      (σ'.allocCell v).1 < β1.L' := by
+  have h1 := (h.allocRight v).bump
+  have hlt : (σ'.allocCell v).1 < (σ'.allocCell v).2.cells.length := by simp [State.allocCell]
+  have hu : ∀ a, ¬ (β.bump σ (σ'.allocCell v).2) a (σ'.allocCell v).1 := fun a hab => h.fresh_unrelatedRight a hab
+  have h2 := h1.setCellRight hlt hu v
+  have hsame : (σ'.allocCell v).2.setCell (σ'.allocCell v).1 v = (σ'.allocCell v).2 := by
+    simp only [State.allocCell, State.setCell, listSet_append_len']
+  rw [hsame] at h2
+  have hnp : ∀ p ∈ (β.bump σ (σ'.allocCell v).2).pins, p.1 ≠ (σ'.allocCell v).1 := fun p hp e => by
+    have hh := h.pin p hp
+    have : p.1 < σ'.cells.length := by
+      cases hx : σ'.cells[p.1]? with
+      | none => rw [hx] at hh; cases hh.1
+      | some _ => exact (List.getElem?_eq_some_iff.mp hx).1
+    simp only [State.allocCell] at e; omega
+  refine ⟨_, CellRel.le_trans (h.allocRight v).le_bump (CellRel.le_repin _ v hnp), h2, ?_, ?_⟩
+  · simp [CellRel.repin]
+  · simp [CellRel.repin, CellRel.bump, State.allocCell]
+
+/-- the owner of a one-sided right local writes it: the pin is updated -/
+theorem SRel.assignRight {σ σ' : State N} (h : SRel Q cx β σ σ') {env' : Env N} {x : String} {c' : Nat}
+    (hl : lookupAssoc x env'.locals = some c') (hlt : c' < σ'.cells.length) (hu : ∀ a, ¬ β a c') (v : Val N) :
+    SRel Q cx (β.repin c' v) σ (Sem.assignVar env' x v σ') := by
+  simp only [Sem.assignVar, hl]; exact h.setCellRight hlt hu v
+
+/-- reading a pinned right local gives the pinned value -/
+theorem SRel.lookupPinned {σ σ' : State N} (h : SRel Q cx β σ σ') {env' : Env N} {x : String} {c' : Nat}
+    {v : Val N} (hl : lookupAssoc x env'.locals = some c') (hp : (c', v) ∈ β.pins) :
+    Sem.lookupVar env' x σ' = v := by
+  simp only [Sem.lookupVar, hl, State.getCell, (h.pin _ hp).1, Option.getD]
+
+theorem SRel.assignLeft {σ σ' : State N} (h : SRel Q cx β σ σ') {env : Env N} {x : String} {c : Nat}
+    (hl : lookupAssoc x env.locals = some c) (hu : ∀ b, ¬ β c b) (v : Val N) :
+    SRel Q cx β (Sem.assignVar env x v σ) σ' := by
+  simp only [Sem.assignVar, hl]; exact h.setCellLeft hu v
+
+/-- reading a one-sided local returns what was last written: the cell is untouched by related code only
+if it is unreachable from it, which is the caller's business; this lemma just exposes the cell -/
+theorem lookupVar_local {env : Env N} {x : String} {c : Nat} (hl : lookupAssoc x env.locals = some c)
+    (σ : State N) : Sem.lookupVar env x σ = σ.getCell c := by
+  simp only [Sem.lookupVar, hl]
 
 end DarkluaModel.Sem.Heap
